@@ -15,6 +15,8 @@ ATOMS_NOISE = ("NH", "H", "C", "DR", "DRESP", "ST", "UKD", "BAD", "TAMPER")
 PAIRS = (
     ("C", "DR"), ("ST", "DR"), ("DR", "ST"), ("BAD", "DR"), ("DR", "BAD"), ("DRESP", "DR"), ("PR", "DR"), ("DR", "DR"),
     ("H", "DR"), ("DRESP", "ST"), ("H", "C"),
+    # a well-formed frame followed in the same read by a byte that is no frame start: the frame in front is processed first
+    ("DR", "PRE"), ("ST", "PRE"), ("PR", "PRE"),
 )
 NO_WRITE_HARMLESS = {"ST", "UK", "PRESP", "DRESP", "H", "C"}
 
